@@ -25,6 +25,8 @@ def lemmas(tier):
     add("load_notification", [("direction", "int"), ("params", "int"), ("tn", "bool"), ("rm", "bool"), ("ro", "bool")] + F5[:3], "V.load_equals(V.doc_notification(direction, params, tn, rm, ro, f1, f2, f3, False, False))", ["0 <= direction < 3", "0 <= params < 3"], "load + read back: notification members and annotations")
     add("merge_first", [("k1", "int"), ("s1", "int")], "V.merge_ok(k1, 31, s1, 1, 6)", ["0 <= k1 < 32", "0 <= s1 < 4"], "create_lsp_model([d1, d2]) == d1 extended in order by d2 (d2 fills every list, d1 any subset of the lists)")
     add("merge_second", [("k2", "int"), ("s2", "int")], "V.merge_ok(31, k2, 1, s2, 6)", ["0 <= k2 < 32", "0 <= s2 < 4"], "create_lsp_model([d1, d2]) == d1 extended in order by d2 (d1 fills every list, d2 any subset of the lists)")
+    add("merge_twice_b", [("k2", "int")], "V.merge_twice(0, k2)", ["0 <= k2 < 32"], "merging the same parsed documents twice, first document with only empty sections: same model both times, documents unchanged")
+    add("merge_twice", [("k1", "int")], "V.merge_twice(k1, 31)", ["0 <= k1 < 32"], "merging the same parsed documents twice gives the same model and leaves the documents unchanged (no aliasing of empty sections)")
     add("eq_same_lists", [("k", "int"), ("si", "int")], "V.eq_same(k, (1, 3, 9)[si], 6)", ["0 <= k < 32", "0 <= si < 3"], "two loads of the same document compare equal and == does not raise (any subset of lists x type kind)")
     add("eq_same_types", [sel, b], "V.eq_same(31, sel, b)", ["0 <= sel < 11", "0 <= b < 9"], "two loads of the same document compare equal and == does not raise (type kind x base name)")
     for which in range(14):
